@@ -149,12 +149,28 @@ Lemma DTask_link : forall t m sv rv, DTask t m sv rv -> SLinkD sv m.
 Proof. intros t m sv rv H. destruct H; cbn; eauto. destruct H; cbn; eauto. Qed.
 
 (* ------------------------------------------------------------------ one poll of a task *)
-Lemma d_task_sim : forall fuel t pin pout m svd rvd svl rvl t' pin' pout',
-  Reach ds ls m -> DTask t m svd rvd -> SLinkL svl m ->
+(* The peer of the polled task is abstract (see SimD.v / SimL.v): `R` is an invariant of the
+   message-level state; d_task_sim_gen only uses the dialer-side hypotheses, l_task_sim_gen only
+   the listener-side ones. *)
+Section Gen.
+Variable R : msys -> Prop.
+Hypothesis R_step_d : forall m, R m -> R (mstep_d m).
+Hypothesis R_ok_ld : forall m, R m -> Forall okmsg (c_ld m ++ ml_wbuf (sl m)).
+Hypothesis R_guard_d : forall m q p hr, R m -> ml_ph (sl m) = MLDone (Some q) ->
+  md_ph (sd m) = MDAwait p hr -> c_ld m <> [].
+Hypothesis R_step_l : forall m, R m -> R (mstep_l ls m).
+Hypothesis R_ok_dl : forall m, R m -> Forall okmsg (c_dl m ++ md_wbuf (sd m)).
+Hypothesis R_head_dl : forall m, R m -> Forall (dmsg ds) (c_dl m).
+Hypothesis R_send_l : forall m, R m -> lph_ok ds (ml_ph (sl m)).
+Hypothesis R_guard_l : forall m q, R m -> md_ph (sd m) = MDDone (Some q) ->
+  (ml_ph (sl m) = MLRecvHeader \/ ml_ph (sl m) = MLRecvMsg) -> c_dl m <> [].
+
+Lemma d_task_sim_gen : forall fuel t pin pout m svd rvd svl rvl t' pin' pout',
+  R m -> DTask t m svd rvd -> SLinkL svl m ->
   DirRel svd rvl pout (c_dl m) (md_wbuf (sd m)) ->
   DirRel svl rvd pin (c_ld m) (ml_wbuf (sl m)) ->
   t_poll fuel t pin pout = (t', pin', pout') ->
-  exists k svd' rvd', Reach ds ls (mdk ls k m) /\ DTask t' (mdk ls k m) svd' rvd' /\
+  exists k svd' rvd', R (mdk ls k m) /\ DTask t' (mdk ls k m) svd' rvd' /\
     DirRel svd' rvl pout' (c_dl (mdk ls k m)) (md_wbuf (sd (mdk ls k m))) /\
     DirRel svl rvd' pin' (c_ld (mdk ls k m)) (ml_wbuf (sl (mdk ls k m))).
 Proof.
@@ -165,7 +181,7 @@ Proof.
   - (* negotiating *)
     cbn [t_poll] in H. rewrite Hph in H.
     destruct (d_poll (d_fuel d pin) d pin pout) as [[[d1 a] b] r] eqn:Ed.
-    destruct (d_poll_sim ds ls Hwf _ _ _ _ _ _ _ _ _ _ _ HR HL HD Hcl Hout Hin Ed)
+    destruct (d_poll_sim ds ls Hwf R R_step_d R_ok_ld R_guard_d _ _ _ _ _ _ _ _ _ _ _ HR HL HD Hcl Hout Hin Ed)
       as (k & HR' & HL' & HP).
     destruct r as [|c|i|i p st w].
     + injection H as <- <- <-. destruct HP as (HD' & Hcl' & Ho & Hi).
@@ -202,12 +218,12 @@ Proof.
     + split; assumption.
 Qed.
 
-Lemma l_task_sim : forall fuel t pin pout m svl rvl svd rvd t' pin' pout',
-  Reach ds ls m -> LTask t m svl rvl -> SLinkD svd m ->
+Lemma l_task_sim_gen : forall fuel t pin pout m svl rvl svd rvd t' pin' pout',
+  R m -> LTask t m svl rvl -> SLinkD svd m ->
   DirRel svl rvd pout (c_ld m) (ml_wbuf (sl m)) ->
   DirRel svd rvl pin (c_dl m) (md_wbuf (sd m)) ->
   t_poll fuel t pin pout = (t', pin', pout') ->
-  exists k svl' rvl', Reach ds ls (mlk ls k m) /\ LTask t' (mlk ls k m) svl' rvl' /\
+  exists k svl' rvl', R (mlk ls k m) /\ LTask t' (mlk ls k m) svl' rvl' /\
     DirRel svl' rvd pout' (c_ld (mlk ls k m)) (ml_wbuf (sl (mlk ls k m))) /\
     DirRel svd rvl' pin' (c_dl (mlk ls k m)) (md_wbuf (sd (mlk ls k m))).
 Proof.
@@ -217,7 +233,7 @@ Proof.
   destruct HT as [l Hph HD Hcl Hres | sv rv j n HV Hres Hidx Hph Hcl | code Hph Hres Hc Hml Hcl].
   - cbn [t_poll] in H. rewrite Hph in H.
     destruct (l_poll (l_fuel pin) l pin pout) as [[[l1 a] b] r] eqn:Ed.
-    destruct (l_poll_sim ds ls Hwf _ _ _ _ _ _ _ _ _ _ _ HR HL HD Hcl Hout Hin Ed)
+    destruct (l_poll_sim ds ls Hwf R R_step_l R_ok_dl R_head_dl R_send_l R_guard_l _ _ _ _ _ _ _ _ _ _ _ HR HL HD Hcl Hout Hin Ed)
       as (k & HR' & HL' & HP).
     destruct r as [|c|j|j p st w].
     + injection H as <- <- <-. destruct HP as (HD' & Hcl' & Ho & Hi).
@@ -250,6 +266,41 @@ Proof.
     exists 0%nat, SvF, RvF. rewrite mlk_0. split; [exact HR|]. split.
     + apply (LT_fail _ _ code); auto.
     + split; assumption.
+Qed.
+
+End Gen.
+
+Lemma d_task_sim : forall fuel t pin pout m svd rvd svl rvl t' pin' pout',
+  Reach ds ls m -> DTask t m svd rvd -> SLinkL svl m ->
+  DirRel svd rvl pout (c_dl m) (md_wbuf (sd m)) ->
+  DirRel svl rvd pin (c_ld m) (ml_wbuf (sl m)) ->
+  t_poll fuel t pin pout = (t', pin', pout') ->
+  exists k svd' rvd', Reach ds ls (mdk ls k m) /\ DTask t' (mdk ls k m) svd' rvd' /\
+    DirRel svd' rvl pout' (c_dl (mdk ls k m)) (md_wbuf (sd (mdk ls k m))) /\
+    DirRel svl rvd' pin' (c_ld (mdk ls k m)) (ml_wbuf (sl (mdk ls k m))).
+Proof.
+  apply (d_task_sim_gen (Reach ds ls)).
+  - intros m H. exact (Reach_run ds ls m [true] H).
+  - intros m H. exact (ok_ld ds ls Hwf m H).
+  - intros m q p hr HR Hq Hph. exact (await_has_message ds ls m q p hr wfd_ds HR Hq Hph).
+Qed.
+
+Lemma l_task_sim : forall fuel t pin pout m svl rvl svd rvd t' pin' pout',
+  Reach ds ls m -> LTask t m svl rvl -> SLinkD svd m ->
+  DirRel svl rvd pout (c_ld m) (ml_wbuf (sl m)) ->
+  DirRel svd rvl pin (c_dl m) (md_wbuf (sd m)) ->
+  t_poll fuel t pin pout = (t', pin', pout') ->
+  exists k svl' rvl', Reach ds ls (mlk ls k m) /\ LTask t' (mlk ls k m) svl' rvl' /\
+    DirRel svl' rvd pout' (c_ld (mlk ls k m)) (ml_wbuf (sl (mlk ls k m))) /\
+    DirRel svd rvl' pin' (c_dl (mlk ls k m)) (md_wbuf (sd (mlk ls k m))).
+Proof.
+  apply (l_task_sim_gen (Reach ds ls)).
+  - intros m H. exact (Reach_run ds ls m [false] H).
+  - intros m H. exact (ok_dl ds ls Hwf m H).
+  - intros m H. destruct (NM_reach ds ls m H) as (H1 & _). exact H1.
+  - intros m H. destruct (NM_reach ds ls m H) as (_ & _ & _ & _ & _ & _ & H7). exact H7.
+  - intros m q HR Hq Hph. destruct (done_dialer_no_read ds ls m q wfd_ds HR Hq) as [N1 N2].
+    exfalso. destruct Hph; contradiction.
 Qed.
 
 (* ------------------------------------------------------------------ the system *)
